@@ -23,6 +23,12 @@ def expectedSites : List (String × String × String) := [
   ("mode-write", "cssutils/parse.py:CSSParser.__parseSetting", "plain"),
   -- withParseSetting: capture, set the parser mode, yield inside try, restore the captured value in finally
   ("parse-setting-shape", "cssutils/parse.py:CSSParser.__parseSetting", "decorators=contextlib.contextmanager | capture-global | set:parser-mode | try[yield]handlers=0,finally[restore:captured]"),
+  -- G.parsers: a parser object is written by its constructor and by setFetcher only (Step.newParser); no entry point assigns to self
+  ("parser-attr-write", "cssutils/parse.py:CSSParser.__init__", "__parseRaising"),
+  ("parser-attr-write", "cssutils/parse.py:CSSParser.__init__", "__parseRaising"),
+  ("parser-attr-write", "cssutils/parse.py:CSSParser.__init__", "__tokenizer"),
+  ("parser-attr-write", "cssutils/parse.py:CSSParser.__init__", "_validate"),
+  ("parser-attr-write", "cssutils/parse.py:CSSParser.setFetcher", "__fetcher"),
   -- Parser.new
   ("parser-mode-init", "cssutils/parse.py:CSSParser.__init__", "self.__parseRaising = raiseExceptions ; self.__parseRaising = False"),
   -- the only `_partof=True` is in the toSeq lambda of MediaList._setMediaText: hand-back grammars are reached as children only
@@ -56,7 +62,8 @@ def expectedSites : List (String × String × String) := [
   ("serialize-log-calls", "cssutils/serialize.py", "0"),
   -- … and raises nothing itself
   ("serialize-raise-statements", "cssutils/serialize.py", "0"),
-  -- memoStep (`_selectorlevel`, with `_selectors.append`); `_level` is restored in a finally (style rule) or by the matching `+= 1` (page rule)
+  -- sheetLevels / memoStep: `_selectors`, `_selectorlevel`, `_insheet` are set at the start of do_CSSStyleSheet and put back in its finally (Step.serialize leaves the state as it is); `_level` is restored in a finally (style rule) or by the matching `+= 1` (page rule)
+  ("serializer-state-write", "cssutils/serialize.py:CSSSerializer.__init__", "_insheet plain"),
   ("serializer-state-write", "cssutils/serialize.py:CSSSerializer.__init__", "_level plain"),
   ("serializer-state-write", "cssutils/serialize.py:CSSSerializer.__init__", "_selectorlevel plain"),
   ("serializer-state-write", "cssutils/serialize.py:CSSSerializer.__init__", "_selectors plain"),
@@ -67,6 +74,12 @@ def expectedSites : List (String × String × String) := [
   ("serializer-state-write", "cssutils/serialize.py:CSSSerializer.do_CSSStyleRule", "_selectorlevel plain"),
   ("serializer-state-write", "cssutils/serialize.py:CSSSerializer.do_CSSStyleRule", "_selectorlevel plain"),
   ("serializer-state-write", "cssutils/serialize.py:CSSSerializer.do_CSSStyleRule", "_selectorlevel plain"),
+  ("serializer-state-write", "cssutils/serialize.py:CSSSerializer.do_CSSStyleSheet", "_insheet finally"),
+  ("serializer-state-write", "cssutils/serialize.py:CSSSerializer.do_CSSStyleSheet", "_insheet plain"),
+  ("serializer-state-write", "cssutils/serialize.py:CSSSerializer.do_CSSStyleSheet", "_selectorlevel finally"),
+  ("serializer-state-write", "cssutils/serialize.py:CSSSerializer.do_CSSStyleSheet", "_selectorlevel plain"),
+  ("serializer-state-write", "cssutils/serialize.py:CSSSerializer.do_CSSStyleSheet", "_selectors finally"),
+  ("serializer-state-write", "cssutils/serialize.py:CSSSerializer.do_CSSStyleSheet", "_selectors plain"),
   -- only MediaQuery passes stopIfNoMoreMatch, and it passes `self._partof`
   ("stopif-arg", "cssutils/prodparser.py:PreDef.char", "stopIfNoMoreMatch"),
   ("stopif-arg", "cssutils/stylesheets/mediaquery.py:MediaQuery._setMediaText", "self._partof"),
